@@ -29,7 +29,11 @@ func (node *tagWidthratioNode) Execute(ctx *ExecutionContext, writer TemplateWri
 	}
 
 	// round to the nearest integer (ceil(x + 0.5) was one too high for every exact ratio)
-	value := int(math.Round(current.Float() / max.Float() * width.Float()))
+	value := 0
+	if max.Float() != 0 {
+		// (a maximum of zero yields 0, like in Django)
+		value = int(math.Round(current.Float() / max.Float() * width.Float()))
+	}
 
 	if node.ctxName == "" {
 		writer.WriteString(fmt.Sprintf("%d", value))
